@@ -626,17 +626,53 @@ func check(t interface {
 		if st&xmpp.InputStreamClosed == 0 || st&xmpp.OutputStreamClosed == 0 {
 			fail("Serve returned but the state is %v (both directions must be marked closed)", st)
 		}
-		var tok xml.Token
-		var rerr error
-		if p := ev.Guard(func() {
-			r := s.TokenReader()
-			tok, rerr = r.Token()
-			r.Close()
-		}); p != "" {
-			fail("TokenReader after Serve: %s", p)
+		// reads after the end: every reader obtained afterwards, however many and
+		// however often each is read, fails with the input-closed error
+		type readRes struct {
+			round, k int
+			tok      xml.Token
+			err      error
+			pan      string
 		}
-		if !errors.Is(rerr, xmpp.ErrInputStreamClosed) {
-			fail("reading after Serve returned: got %v, %v; want ErrInputStreamClosed", tok, rerr)
+		rch := make(chan readRes, 1)
+		go func() {
+			var bad readRes
+			bad.pan = ev.Guard(func() {
+				for round := 0; round < 3; round++ {
+					r := s.TokenReader()
+					for k := 0; k <= round; k++ {
+						tok, rerr := r.Token()
+						if !errors.Is(rerr, xmpp.ErrInputStreamClosed) && bad.err == nil && bad.tok == nil {
+							bad = readRes{round: round, k: k, tok: tok, err: rerr}
+							if rerr == nil {
+								bad.err = errors.New("<nil>")
+							}
+						}
+					}
+					r.Close()
+					if round == 1 {
+						r.Close() // closing a reader again is harmless
+					}
+				}
+			})
+			rch <- bad
+		}()
+		select {
+		case rr := <-rch:
+			if rr.pan != "" {
+				fail("TokenReader after Serve: %s", rr.pan)
+			}
+			if rr.err != nil || rr.tok != nil {
+				fail("reading after Serve returned (reader %d, read %d): got %v, %v; want ErrInputStreamClosed", rr.round, rr.k, rr.tok, rr.err)
+			}
+		case <-time.After(10 * time.Second):
+			if b := wire.BlockedMatching("TokenReader"); len(b) > 0 {
+				time.Sleep(300 * time.Millisecond)
+				if b2 := wire.BlockedMatching("TokenReader"); len(b2) > 0 {
+					fail("after Serve returned, obtaining and reading token readers (three in a row, each closed) does not come back: parked inside the library\n%s", strings.Join(b2, "\n\n"))
+				}
+			}
+			ev.Class("inconclusive-timeout")
 		}
 		// transmit after Serve has returned must fail too
 		a := &action{kind: "transmit", entry: "Send", idx: 9999}
